@@ -395,7 +395,9 @@ class Corpus:
                     f.write(json.dumps(r) + "\n")
             if os.path.exists(of):
                 os.remove(of)
-            exe = self.bins["%s_shard%02d" % (self.name.replace("-", "_"), si)]
+            exe = self.bins.get("%s_shard%02d" % (self.name.replace("-", "_"), si))
+            if exe is None:
+                raise core.MachineryError("corpus %s: no binary for shard %d (built: %s; rejected programs: %s)" % (self.name, si, sorted(self.bins), sorted(self.failed)))
             env = dict(os.environ)
             env["VERIF_E2_THREADS"] = str(threads_per_shard)
             env["RUST_BACKTRACE"] = "0"
